@@ -621,3 +621,108 @@ func init() {
 		return nil
 	}
 }
+
+func init() {
+	intrinsics["bytes.Contains"] = func(in *Interp, fr *frame, args []Value) Value {
+		tb := in.tb
+		s, sub := args[0].(Slice).A, args[1].(Slice).A
+		if len(sub) == 0 {
+			return tb.True
+		}
+		res := tb.False
+		for i := 0; i+len(sub) <= len(s); i++ {
+			m := tb.True
+			for j := range sub {
+				m = tb.And(m, tb.Eq(s[i+j].(*Term), sub[j].(*Term)))
+			}
+			res = tb.Or(res, m)
+		}
+		return res
+	}
+	intrinsics["bytes.IndexByte"] = func(in *Interp, fr *frame, args []Value) Value {
+		tb := in.tb
+		s, c := args[0].(Slice).A, args[1].(*Term)
+		res := tb.BVConst(64, ^uint64(0))
+		for i := len(s) - 1; i >= 0; i-- {
+			res = tb.Ite(tb.Eq(s[i].(*Term), c), tb.BVConst(64, uint64(i)), res)
+		}
+		return res
+	}
+	intrinsics["bytes.Trim"] = func(in *Interp, fr *frame, args []Value) Value {
+		tb := in.tb
+		s := args[0].(Slice)
+		cut := concStr(args[1])
+		inCut := func(b *Term) *Term {
+			r := tb.False
+			for i := 0; i < len(cut); i++ {
+				r = tb.Or(r, tb.Eq(b, tb.BVConst(8, uint64(cut[i]))))
+			}
+			return r
+		}
+		lo, hi := 0, len(s.A)
+		for lo < hi && in.decide(fr, nil, inCut(s.A[lo].(*Term))) {
+			lo++
+		}
+		for hi > lo && in.decide(fr, nil, inCut(s.A[hi-1].(*Term))) {
+			hi--
+		}
+		if lo == hi {
+			return Slice{}
+		}
+		return Slice{A: s.A[lo:hi]}
+	}
+	intrinsics["strings.HasPrefix"] = func(in *Interp, fr *frame, args []Value) Value {
+		s, p := args[0].(Str), args[1].(Str)
+		if s.Opaque || p.Opaque {
+			panic(engineAbort{"strings.HasPrefix on opaque string"})
+		}
+		if s.Len() < p.Len() {
+			return in.tb.False
+		}
+		sb, pb := in.strBytes(s), in.strBytes(p)
+		r := in.tb.True
+		for i := range pb {
+			r = in.tb.And(r, in.tb.Eq(sb[i].(*Term), pb[i].(*Term)))
+		}
+		return r
+	}
+	intrinsics["strings.Split"] = func(in *Interp, fr *frame, args []Value) Value {
+		s := args[0].(Str)
+		sep := concStr(args[1])
+		if s.Opaque {
+			panic(engineAbort{"strings.Split of opaque string"})
+		}
+		if len(sep) != 1 {
+			if s.IsConcrete() {
+				var out []Value
+				for _, p := range strings.Split(s.Concrete(), sep) {
+					out = append(out, Str{S: p})
+				}
+				return Slice{A: out}
+			}
+			panic(engineAbort{"strings.Split with multi-byte separator on symbolic string"})
+		}
+		bs := in.strBytes(s)
+		var out []Value
+		start := 0
+		mk := func(a, b int) Str {
+			ts := make([]*Term, b-a)
+			for i := a; i < b; i++ {
+				ts[i-a] = bs[i].(*Term)
+			}
+			r := Str{B: ts}
+			if r.IsConcrete() {
+				return Str{S: r.Concrete()}
+			}
+			return r
+		}
+		for i := range bs {
+			if in.decide(fr, nil, in.tb.Eq(bs[i].(*Term), in.tb.BVConst(8, uint64(sep[0])))) {
+				out = append(out, mk(start, i))
+				start = i + 1
+			}
+		}
+		out = append(out, mk(start, len(bs)))
+		return Slice{A: out}
+	}
+}
